@@ -7,6 +7,10 @@ ALL = ["C%02d" % i for i in range(1, 21)]
 
 # id -> (technique, level text, level note, design ref)
 CHECKS = {
+ "C01": ("bounded-exhaustive enumeration of signer sets x verifier sets x wrappers x entry points x reflective single-point alterations (content, signature list, supplied keys), each under every order of the layout-key loop and three link directories",
+         "All 8 signer subsets x 16 verifier subsets (RSA, ECDSA, Ed25519 + foreign key) on 2 (thorough 3) layout shapes, both wrappers, both entry points; every single-point alteration of the signed layout found by a reflective walk (applied in memory and in the file under the old signatures); 20+ signature-list alterations per signer set; supplied-key alterations incl. same-id/foreign-material and short histories (genuine then forged, forged then genuine). accept only if every supplied key has a valid signature over the enforced content; on reject no marker inspection ran and the error is the same with complete, empty and garbage link directories; all permutations of the layout-key loop.",
+         "Trusted: construction (who signed which bytes). Outside: key values, >= 2 simultaneous alterations (thorough adds shape 3 only), layouts beyond the shapes.",
+         "DESIGN.md §3 C01"),
  "C17": ("bounded-exhaustive enumeration of all patterns x all names over metacharacter alphabets, differential against a reference matcher",
          "Every pattern up to length 5 (quick) / 6 (thorough) over an alphabet holding every metacharacter, against every name up to length 4 / 5, "
          "plus a metacharacter-name and a UTF-8 alphabet, is pushed through Set.Filter and compared with an independent backtracking matcher written from the documented grammar; "
